@@ -19,14 +19,15 @@ PREFIXES = {
 GROUPS = {'keys': (0, 4), 'pedals': (5, 8), 'keyped': (0, 8), 'offtick': (9, 13), 'data': (14, 19), 'otherch': (20, 24)}
 # (channel, prefix, group, with release tail, tiers).  Every registered obligation has been run on the unchanged tree; the percussion
 # channel 9 variants and the remaining prefix x group combinations are listed in UNREGISTERED (CBMC returns status ERROR for 20 properties
-# of the channel-9 variants and of ch0.porta1.keys / ch0.down1.*, apparently the SAT solver running into the 14 GiB address-space limit;
+# of the channel-9 variants and ch0.down1.* under the 14 GiB address-space limit: the SAT back end runs out of memory; with the 28 GiB
+# limit that weight-4 obligations now get, ch0.porta1.keys passes and is registered;
 # the others were not run for lack of time) -- see DESIGN.md section 4.
 SETS = {
     'C05': [(0, 'pedheld', 'offtick', False, ('quick', 'thorough')), (0, 'sostdown', 'keyped', False, ('quick', 'thorough')),
             (0, 'both', 'keyped', False, ('quick', 'thorough')), (0, 'pedheld', 'pedals', True, ('quick', 'thorough')),
             (0, 'pedheld', 'keyped', False, ('thorough',)), (0, 'both', 'offtick', False, ('thorough',))],
-    'C04': [(0, 'sostdown', 'keyped', False, ('quick', 'thorough')),
-            (0, 'pedheld', 'offtick', False, ('quick', 'thorough')), (0, 'pedheld', 'keyped', False, ('quick', 'thorough')),
+    'C04': [(0, 'porta1', 'keys', False, ('quick', 'thorough')), (0, 'sostdown', 'keyped', False, ('quick', 'thorough')),
+            (0, 'pedheld', 'offtick', False, ('quick', 'thorough')), (0, 'pedheld', 'keyped', False, ('thorough',)),
             (0, 'both', 'offtick', False, ('thorough',))],
 }
 ASSUME = ['bank entries are pinned: concrete single-voice timbres, not blank, key-on/off times 1200/300 ms (a symbolic time makes the allocator choice symbolic)',
